@@ -87,8 +87,15 @@ class UAIReader(object):
             )
             grammar += function_grammar
 
+        # e.g. 1, 0.25, 1e-12, 2.5E+3
         floatnumber = Combine(
-            Word(nums) + Optional(Literal(".") + Optional(Word(nums)))
+            Word(nums)
+            + Optional(Literal(".") + Optional(Word(nums)))
+            + Optional(
+                (Literal("e") | Literal("E"))
+                + Optional(Literal("-") | Literal("+"))
+                + Word(nums)
+            )
         )
         for function in range(0, self.no_functions):
             no_values_grammar = Word(nums).setResultsName(
